@@ -24,10 +24,20 @@ structure Morph where
   isOov : Bool
 deriving Repr
 
-/-- the library, as seen by the CLI: `none` = the model was not given this text -/
+/-- `InfoSubset::all()` (ten flag bits) -/
+def subsetAll : Nat := 1023
+
+/-- what `reset(); push_str(text); do_tokenize(); collect_results()` gives for one text -/
+inductive TokRes
+  | ok (ms : List Morph) (dump : Bytes)   -- the morphemes; `dump` = what a debug tokenizer `println!`s meanwhile
+  | err (dump : Bytes)                    -- `do_tokenize` returned `Err` (after printing `dump`)
+  | missing                               -- driver only: the shipped table has no entry for the text
+deriving Repr
+
+/-- the library, as seen by the CLI -/
 structure Lib where
-  split : Bytes → Option (List Bytes)        -- `SentenceSplitter::split` (sentences in order)
-  tokenize : Bytes → Option (List Morph)     -- `reset; do_tokenize; collect_results` in the CLI's mode
+  split : Bytes → List Bytes                -- `SentenceSplitter::split` (sentences in order)
+  tokenize : Nat → Bytes → TokRes           -- analysis with the given `InfoSubset` bits in the CLI's mode
 
 inductive StripVariant | cur | fix
 deriving DecidableEq, Repr
@@ -93,28 +103,88 @@ structure Flags where
   all : Bool
   split : SplitMode
   strip : StripVariant
+  debug : Bool := false        -- `-d`
+  toFile : Bool := false       -- `-o <path>`
 
 def format (f : Flags) (ms : List Morph) : Bytes :=
   if f.wakati then wakatiOut ms else simpleOut f.all ms
 
-def allSomeB : List (Option Bytes) → Option Bytes
-  | [] => some []
-  | none :: _ => none
-  | some a :: rest => (allSomeB rest).map (a ++ ·)
+/-- `SudachiOutput::subset()` of the selected writer.  DEAD CODE: nothing calls it. -/
+def outputSubset (f : Flags) : Nat :=
+  if f.wakati then 0 else if f.all then 4 + 8 + 16 + 32 + 512 else 4 + 8
 
-/-- `Analysis::analyze` for the three modes; `none` = the library table lacks an entry -/
-def analyzeLine (lib : Lib) (f : Flags) (text : Bytes) : Option Bytes :=
+/-- the subset the analysis runs with: `StatefulTokenizer::create` starts from `InfoSubset::all()` and
+`Analysis::set_subset` is never called by `main` -/
+def cliSubset (_f : Flags) : Nat := subsetAll
+
+/-- process exit: 0, or 101 (a panic of the main thread: `unwrap_or_else(|e| panic!(..))`, `expect`) -/
+inductive Exit | ok | panic | miss
+deriving DecidableEq, Repr
+
+/-- what one `analyze` call emits: bytes printed by the debug tokenizer (straight to stdout), bytes written to
+`writer` (a `BufWriter`), and whether it returned -/
+structure Emit where
+  dumps : Bytes
+  outs : Bytes
+  exit : Exit
+deriving Repr
+
+/-- `AnalyzeNonSplitted::analyze`: a tokenizer error is a panic, nothing is written for the failing text -/
+def analyzeOne (lib : Lib) (f : Flags) (text : Bytes) : Emit :=
+  match lib.tokenize (cliSubset f) text with
+  | .ok ms d => ⟨if f.debug then d else [], format f ms, .ok⟩
+  | .err d => ⟨if f.debug then d else [], [], .panic⟩
+  | .missing => ⟨[], [], .miss⟩
+
+/-- `AnalyzeSplitted::analyze`: the sentences in order; the first failing one ends the process -/
+def analyzeSents (lib : Lib) (f : Flags) : List Bytes → Emit
+  | [] => ⟨[], [], .ok⟩
+  | s :: rest =>
+    let e := analyzeOne lib f s
+    if e.exit = .ok then
+      let r := analyzeSents lib f rest
+      ⟨e.dumps ++ r.dumps, e.outs ++ r.outs, r.exit⟩
+    else e
+
+/-- `Analysis::analyze` for the three modes (`SplitSentencesOnly` owns no tokenizer: no dumps, no errors) -/
+def analyzeLine (lib : Lib) (f : Flags) (text : Bytes) : Emit :=
   match f.split with
-  | .only => (lib.split text).map List.flatten
-  | .none => (lib.tokenize text).map (format f)
-  | .default =>
-    match lib.split text with
-    | none => none
-    | some sents => allSomeB (sents.map (fun s => (lib.tokenize s).map (format f)))
+  | .only => ⟨[], (lib.split text).flatten, .ok⟩
+  | .none => analyzeOne lib f text
+  | .default => analyzeSents lib f (lib.split text)
 
-/-- stdout of `sudachi [flags] file` -/
-def run (lib : Lib) (f : Flags) (file : Bytes) : Option Bytes :=
-  allSomeB ((lines file).map (fun l => analyzeLine lib f (stripEol f.strip l)))
+/-- the read loop: one `Emit` per line read, stopping after the first line that panics -/
+def runLines (lib : Lib) (f : Flags) : List Bytes → List Emit
+  | [] => []
+  | l :: rest =>
+    let e := analyzeLine lib f (stripEol f.strip l)
+    if e.exit = .ok then e :: runLines lib f rest else [e]
+
+def exitOf : List Emit → Exit
+  | [] => .ok
+  | [e] => e.exit
+  | _ :: rest => exitOf rest
+
+/-- what the process leaves behind -/
+structure Out where
+  stdout : Bytes
+  file : Option Bytes      -- contents of the `-o` file; `none` = not requested or never created
+  exit : Exit
+deriving Repr, DecidableEq
+
+/-- `sudachi [flags] [-o out] [file]`.  `inOk`: the input file can be opened (always true for stdin), `outOk`:
+the output file can be created.  Input is opened first, then the output, then the dictionary is loaded.
+Results go through a `BufWriter` that is flushed after every line when it wraps stdout, at the end otherwise,
+and by its `Drop` while a panic unwinds; the debug tokenizer prints with `println!` (line buffered, immediate).
+So on stdout the dumps of a line precede the results of that line (as long as the results of one line stay below
+the writer's 8 KiB capacity: assumption A-BUF, kept by the generator); with `-o` stdout carries the dumps only. -/
+def run (lib : Lib) (f : Flags) (inOk outOk : Bool) (file : Bytes) : Out :=
+  if !inOk then ⟨[], none, .panic⟩
+  else if f.toFile && !outOk then ⟨[], none, .panic⟩
+  else
+    let evs := runLines lib f (lines file)
+    if f.toFile then ⟨(evs.map (·.dumps)).flatten, some (evs.map (·.outs)).flatten, exitOf evs⟩
+    else ⟨(evs.map (fun e => e.dumps ++ e.outs)).flatten, none, exitOf evs⟩
 
 /-! ## Python tokenizer: per-call mode override (`tokenize(text, mode=…, out=…)`) -/
 
@@ -158,10 +228,18 @@ def parseMorph (s : List Char) : Option Morph :=
     | _, _, _, _, _, _, _ => none
   | _ => none
 
-/-- table entries: `S<hex text>=<hex>,<hex>,…` (sentences) and `T<hex text>=<morph>,<morph>,…` -/
+/-- table entries: `S<hex text>=<hex>,<hex>,…` (sentences), `T<subset>:<hex text>=<hex dump>=<morph>,<morph>,…`
+(analysis succeeded), `E<subset>:<hex text>=<hex dump>` (analysis failed) -/
 inductive Entry
   | sents (text : Bytes) (ss : List Bytes)
-  | toks (text : Bytes) (ms : List Morph)
+  | toks (subset : Nat) (text : Bytes) (r : TokRes)
+
+def parseKey (s : List Char) : Option (Nat × Bytes) :=
+  match Wire.splitOn ':' s with
+  | [b, t] => match Wire.nat? b, unhex t with
+    | some b, some t => some (b, t)
+    | _, _ => none
+  | _ => none
 
 def parseEntry (s : List Char) : Option Entry :=
   match s with
@@ -173,37 +251,53 @@ def parseEntry (s : List Char) : Option Entry :=
     | _ => none
   | 'T' :: rest =>
     match Wire.splitOn '=' rest with
-    | [t, v] => match unhex t, Wire.allSome ((Wire.items ',' v).map parseMorph) with
-      | some t, some ms => some (.toks t ms)
+    | [k, d, v] => match parseKey k, unhex d, Wire.allSome ((Wire.items ',' v).map parseMorph) with
+      | some (b, t), some d, some ms => some (.toks b t (.ok ms d))
+      | _, _, _ => none
+    | _ => none
+  | 'E' :: rest =>
+    match Wire.splitOn '=' rest with
+    | [k, d] => match parseKey k, unhex d with
+      | some (b, t), some d => some (.toks b t (.err d))
       | _, _ => none
     | _ => none
   | _ => none
 
+/-- a text without `S` entry has no sentences recorded: the driver then answers `bad-table` through `missing` -/
 def libOf (es : List Entry) : Lib where
-  split := fun t => es.findSome? (fun e => match e with | .sents t' ss => if t' = t then some ss else none | _ => none)
-  tokenize := fun t => es.findSome? (fun e => match e with | .toks t' ms => if t' = t then some ms else none | _ => none)
+  split := fun t => match es.findSome? (fun e => match e with | .sents t' ss => if t' = t then some ss else none | _ => none) with
+    | some ss => ss
+    | none => [[0xff, 0xfe, 0xfd]]     -- not UTF-8: no `T` entry can exist for it
+  tokenize := fun b t => match es.findSome? (fun e => match e with | .toks b' t' r => if b' = b ∧ t' = t then some r else none | _ => none) with
+    | some r => r
+    | none => .missing
+
+def showExit : Exit → String | .ok => "0" | .panic => "101" | .miss => "bad-table"
 
 def parseMode (s : List Char) : Option Mode :=
   match s with | ['A'] => some .A | ['B'] => some .B | ['C'] => some .C | _ => none
 
 def showMode : Mode → String | .A => "A" | .B => "B" | .C => "C"
 
-/-- `C19 cli w=<0|1> a=<0|1> split=<default|only|none> strip=<cur|fix> file=<hex> tab=<entry;entry;…>` → `ok out=<hex>`
+/-- `C19 cli w=<0|1> a=<0|1> d=<0|1> o=<0|1> in=<0|1> outp=<0|1> split=<default|only|none> strip=<cur|fix> file=<hex> tab=<entry;entry;…>`
+      → `exit=<0|101> out=<hex> file=<hex|->`   (`src=` — file or stdin — is carried on the line and ignored: the model is the same)
     `C19 pymode init=<A|B|C> calls=<-|A|B|C>:<0|1>,…` → `ok final=<mode> ran=<modes>` -/
 def handle (op : List Char) (toks : List (List Char)) : String :=
   if op = "cli".toList then
-    match Wire.kv? toks "w", Wire.kv? toks "a", Wire.kv? toks "split", Wire.kv? toks "strip", Wire.kv? toks "file", Wire.kv? toks "tab" with
-    | some w, some a, some sp, some st, some fl, some tb =>
+    match Wire.kv? toks "w", Wire.kv? toks "a", Wire.kv? toks "split", Wire.kv? toks "strip", Wire.kv? toks "file", Wire.kv? toks "tab",
+          Wire.kv? toks "d", Wire.kv? toks "o", Wire.kv? toks "in", Wire.kv? toks "outp" with
+    | some w, some a, some sp, some st, some fl, some tb, some d, some o, some inn, some outp =>
       let split? : Option SplitMode := if sp = "default".toList then some .default else if sp = "only".toList then some .only
         else if sp = "none".toList then some .none else none
       let strip? : Option StripVariant := if st = "cur".toList then some .cur else if st = "fix".toList then some .fix else none
       match split?, strip?, unhex fl, Wire.allSome ((Wire.items ';' tb).map parseEntry) with
       | some split, some strip, some file, some es =>
-        match run (libOf es) ⟨w = ['1'], a = ['1'], split, strip⟩ file with
-        | some out => "ok out=" ++ EditM.showHex out
-        | none => "bad-table"
+        let r := run (libOf es) ⟨w = ['1'], a = ['1'], split, strip, d = ['1'], o = ['1']⟩ (inn = ['1']) (outp = ['1']) file
+        if r.exit = .miss then "bad-table" else
+        "exit=" ++ showExit r.exit ++ " out=" ++ EditM.showHex r.stdout ++ " file=" ++
+          (match r.file with | some b => EditM.showHex b | none => "-")
       | _, _, _, _ => "bad-op"
-    | _, _, _, _, _, _ => "bad-op"
+    | _, _, _, _, _, _, _, _, _, _ => "bad-op"
   else if op = "pymode".toList then
     match Wire.kv? toks "init", Wire.kv? toks "calls" with
     | some i, some cs =>
